@@ -2,7 +2,7 @@
 (* Scenario: the common corpus -- requests and responses that use only members *)
 (* existing without any feature -- decoded / encoded under configuration F     *)
 (* must behave exactly as under the empty configuration.  C16.                 *)
-EXTENDS Ctap, Gen
+EXTENDS Ctap, Gen, Lattice
 
 F0 == {}
 
@@ -36,7 +36,14 @@ CommonTypes ==
                    acd |-> <<[aaguid |-> Pattern(102, 16), idLen |-> 32, idSeed |-> 103, pk |-> Pattern(101, 77)]>>,
                    ext |-> <<e>>]] : e \in SubsetsOf(McExtMin, McExtOptVals(F0))}
 
-MC_Cases == CommonRequests \cup LbWindows \cup CommonResponses \cup CommonTypes
+\* every member of the feature-independent types over the lattice of its type, members that are
+\* never serialised included (a relying-party entity that carries the legacy icon)
+CommonLattice ==
+    UNION {{TypeEncCase(t, v, "common-type-lattice") : v \in OneAtATime(t, F0, FALSE)} : t \in {"Rp", "User", "Desc"}}
+    \cup {RespCase("CredentialManagement", v, 7609, "common-response-lattice") : v \in OneAtATime("CmResp", F0, FALSE)}
+    \cup {RespCase("ClientPin", v, 7609, "common-response-lattice") : v \in OneAtATime("CpResp", F0, FALSE)}
+
+MC_Cases == CommonRequests \cup LbWindows \cup CommonResponses \cup CommonTypes \cup CommonLattice
 
 \* Strictness: a GetInfo message carrying a key that does not exist in configuration F must be
 \* refused under F (the integer-keyed maps are strict), and a key that exists must carry its type.
